@@ -7,7 +7,9 @@
      ops    one entry (kind idx variant) per thread: kind 0 pure reader (variant says which one;
             of no concern to the model), 1 store.to_json_string, 2 ToJson::to_json_string(member idx,
             store config), 3 inherent member.to_json_string(), 4 ToJson::to_json_string(member idx,
-            unrelated Config)
+            unrelated Config), 5 ToJson::to_json_string(member idx, store config) followed by
+            store.to_json_string on the same thread, 6 store.to_json_file into a file of the thread's own
+            (same code path as 1)
      sched  the thread chosen at every scheduling decision of the deterministic scheduler (one
             decision = the chosen thread performs the access it is blocked in front of and runs up to
             its next yield site), as executed by the harness
@@ -38,6 +40,8 @@ Definition op_of (x : sx) : op :=
   | 2 => OpMemberTrait i
   | 3 => OpMemberPlain i
   | 4 => OpMemberForeign i
+  | 5 => OpMemberThenStore i
+  | 6 => OpStore
   | _ => OpPure
   end.
 
